@@ -24,7 +24,7 @@ CONSTANTS MaxFields, MaxLayers,
           BUG_IndexDrift,   \* the overlay walk forgets to skip func fields
           BUG_PtrMerge      \* a set user pointer over a non-nil one is treated as a struct merge (pre-fix behaviour: panic)
 
-Nilable == {"slice", "map", "pint", "pkmap"}       \* pkmap: a map keyed by pointers
+Nilable == {"slice", "map", "pint", "pkmap", "mmap"}       \* pkmap: a map keyed by pointers, mmap: a map of maps
 TopFields == [k : LeafKinds \cup SkipKinds] \cup {[k |-> sk, sub |-> s] : sk \in StructKinds, s \in InnerShapes}
 
 Nil == [t |-> "nil"]
@@ -74,7 +74,7 @@ LayersOf(pshape, id) ==     \* the values a source may return for a pointerified
   ELSE LET f == pshape[1]
            rest == LayersOf(Tail(pshape), id)
            mine == IF IsStruct(f) THEN {Unset} \cup {St(l) : l \in LayersOf(f.sub, id)}
-                   ELSE IF f.k \in {"slice", "map", "pkmap"} THEN {Unset, Id(id), Empty(id)}
+                   ELSE IF f.k \in {"slice", "map", "pkmap", "mmap"} THEN {Unset, Id(id), Empty(id)}
                    ELSE {Unset, Id(id)}
        IN {<<m>> \o r : m \in mine, r \in rest}
 
